@@ -165,6 +165,10 @@ HAND = [
     ('listing-dotted', 'import pk.\n', [(1, 10)]),
     ('listing-top-prefix', 'import m\n', [(1, 8)]),
     ('listing-relative', 'from . import \n', [(1, 14)]),
+    # a definition whose name stands far below its keyword, next to an assignment of the same name (equal sort keys if the name is not found)
+    ('def-name-far-below-keyword', 'import os\nif os:\n    def \\\n \\\n \\\n \\\n \\\n \\\n        f(): return 1\nelse:\n    f = 1\nf\nf.real\n', [(12, 1), (13, 6)]),
+    ('def-name-far-below-keyword-col0', 'import os\nif os:\n    def \\\n\\\n\\\n\\\n\\\nf(): return 1\nelse:\n    f = 1\nf\nf.real\n', [(11, 1), (12, 6)]),
+    ('def-name-nfkc', 'import os\nif os:\n    def \u00b5(): return 1\nelse:\n    \u03bc = 1\n\u03bc\n\u03bc.real\n', [(6, 1), (7, 6)]),
     ('except-names', 'try:\n    pass\nexcept ValueError as e:\n    x = e\nexcept TypeError as e:\n    x = e\nelse:\n    x = None\nx\n', [(9, 1)]),
 ]
 
